@@ -3,6 +3,8 @@ package security
 // Shared harness scaffolding for package security (overlay only).
 
 //vp:use gocache
+//vp:all model regexp.MustCompile = vpmRegexpMustCompile
+//vp:all model (*regexp.Regexp).ReplaceAllString = vpmRegexpReplaceAllString
 
 import (
 	"context"
